@@ -387,6 +387,29 @@ func restsOnOptOut(q name, wild bool) bool {
 	return false
 }
 
+// belowHashedCut: d lies strictly below a delegation point or DNAME owner that
+// the ring contains (i.e. not an opted-out insecure delegation): "delegation"
+// / "dname", else "".
+func belowHashedCut(d name) string {
+	d = d.fold()
+	z := curZ3.z
+	if !d.under(z.apex) {
+		return ""
+	}
+	for k := len(z.apex); k < len(d); k++ {
+		if nd, ok := z.byKey[d.suffix(k).key()]; ok && nd.isCut() {
+			if curZ3.opted[nd.n.key()] {
+				return "" // everything below an opted-out delegation is invisible to the ring
+			}
+			if nd.isDeleg() {
+				return "delegation"
+			}
+			return "dname"
+		}
+	}
+	return ""
+}
+
 func execNsec3(f []string) vlib.Res {
 	switch f[1] {
 	case "new":
@@ -468,6 +491,9 @@ func execNsec3(f []string) vlib.Res {
 					res.Oracle = fmt.Sprintf("FAIL sig=nsec3/%s/mixed-set-accepted", entry)
 				case c != curZ3.z.cls:
 					res.Oracle = fmt.Sprintf("FAIL sig=nsec3/%s/wrong-class-accepted", entry)
+				case belowHashedCut(q) != "":
+					// secure or not: a denial for a name below one of the ring's own cuts
+					res.Oracle = fmt.Sprintf("FAIL sig=nsec3/%s/below-%s-accepted", entry, belowHashedCut(q))
 				case secure && restsOnOptOut(q, false):
 					res.Oracle = fmt.Sprintf("FAIL sig=nsec3/%s/optout-marked-secure", entry)
 				case secure && truth != want:
@@ -493,6 +519,10 @@ func execNsec3(f []string) vlib.Res {
 				switch {
 				case kind == "mixed":
 					res.Oracle = "FAIL sig=nsec3/delegation/mixed-set-accepted"
+				case belowHashedCut(d) != "":
+					// RFC 5155 8.9 / RFC 6840 4.1: the parent's records never speak for
+					// names below one of its (non-opted-out) zone cuts or DNAMEs
+					res.Oracle = "FAIL sig=nsec3/delegation/below-" + belowHashedCut(d) + "-accepted"
 				case nd != nil && nd.types[tDS]:
 					res.Oracle = "FAIL sig=nsec3/delegation/ds-present-accepted"
 				case nd != nil && !nd.isDeleg():
@@ -553,9 +583,9 @@ func genNsec3Case(r *vlib.R, emit func(string)) int {
 	}
 	z.byKey[z.apex.key()].types[tNSEC3P] = true
 	z3 := &zone3{z: z, opted: map[string]bool{}}
-	switch r.Intn(4) {
+	switch r.Intn(6) {
 	case 0:
-	case 1:
+	case 1, 2, 3:
 		z3.salt = r.Bytes(1 + r.Intn(8))
 	default:
 		z3.salt = []byte{0xab, 0xcd}
@@ -601,6 +631,29 @@ func genNsec3Case(r *vlib.R, emit func(string)) int {
 			}
 		}
 	}
+	// names below the zone's own (hashed) cuts, offered as "insecure delegations"
+	// and DS denials: in an Opt-Out zone a flagged span may well cover the next
+	// closer name, the closest encloser is what must stop the proof
+	if z3.optOut && r.Chance(2, 3) {
+		first := true
+		for _, nd := range z.auth() {
+			if !nd.isCut() || z3.opted[nd.n.key()] || len(nd.n) >= 5 {
+				continue
+			}
+			if first {
+				emit("h set " + recs3Str(ring))
+				curSet3 = ring
+				cnt++
+				first = false
+			}
+			for _, q := range []name{nd.n.child("kid"), nd.n.child("kid").child("x")} {
+				emit(fmt.Sprintf("h dlg %s %s %s", z.apex, q, hashTable(q, z.apex)))
+				emit(fmt.Sprintf("h nod %s %s 43 1 %s", z.apex, q, hashTable(q, z.apex)))
+				emit(fmt.Sprintf("h nxd %s %s 1 1 %s", z.apex, q, hashTable(q, z.apex)))
+				cnt += 3
+			}
+		}
+	}
 	for round := 0; round < 2+r.Intn(3); round++ {
 		var set []rec3
 		switch k := r.Intn(10); {
@@ -641,7 +694,16 @@ func genNsec3Case(r *vlib.R, emit func(string)) int {
 			case 0:
 				x.iter = z3.iter + 1
 			case 1:
-				x.salt = append([]byte{0x01}, z3.salt...)
+				// another salt: longer, shorter, or (salt rotation) same length, other value
+				switch {
+				case len(z3.salt) > 0 && r.Chance(2, 3):
+					x.salt = append([]byte(nil), z3.salt...)
+					x.salt[r.Intn(len(x.salt))] ^= byte(1 + r.Intn(255))
+				case len(z3.salt) > 1 && r.Bool():
+					x.salt = append([]byte(nil), z3.salt[1:]...)
+				default:
+					x.salt = append([]byte{0x01}, z3.salt...)
+				}
 				x.saltText = hex.EncodeToString(x.salt)
 			case 2:
 				x.cls = 3
@@ -667,6 +729,31 @@ func genNsec3Case(r *vlib.R, emit func(string)) int {
 				x.hashLen = 19
 			}
 			set = append(set, x)
+		}
+		// a second chain of the same zone (salt rotation / re-signing with other
+		// iterations): genuine records of BOTH chains in one set must be refused
+		if r.Chance(1, 8) {
+			alt := *z3
+			if len(z3.salt) > 0 && r.Chance(3, 4) {
+				alt.salt = append([]byte(nil), z3.salt...)
+				alt.salt[r.Intn(len(alt.salt))] ^= byte(1 + r.Intn(255))
+			} else {
+				alt.iter = z3.iter + 1 + r.Intn(3)
+				if alt.iter > 150 {
+					alt.iter = z3.iter - 1
+				}
+			}
+			ar := alt.ring()
+			set = append([]rec3(nil), ring...)
+			for _, x := range ar {
+				if r.Chance(2, 3) {
+					set = append(set, x)
+				}
+			}
+			if len(set) == len(ring) {
+				set = append(set, ar[0])
+			}
+			stranger = true
 		}
 		// a forged span that swallows a genuine owner hash: the match for that
 		// owner is then also covered (lookup must refuse); unjudged, model-vs-code
